@@ -24,7 +24,7 @@ import warnings
 from harness.common import ensure_impl_on_path, known_predicate
 
 GEN_MODULES = ['excelformula']
-EXTRA_TARGETS = ('Proofs/C02.vo', 'Refuted/C02_emit_neg_pow.vo', 'Refuted/C02_literals.vo')
+EXTRA_TARGETS = ('Proofs/C02.vo', 'Refuted/C02_literals.vo')
 ASSUMPTIONS = [
     "the openpyxl tokenizer and Tokenizer._items are not modelled: the model parses the token string "
     "flat(c) of a concrete tree, the implementation the rendered text (tie: exact RPN / code strings)",
@@ -43,24 +43,6 @@ ERRORS = ['#DIV/0!', '#N/A', '#VALUE!', '#REF!', '#NAME?', '#NUM!', '#NULL!']
 
 
 # ------------------------------------------------------- known-finding predicates (inert until listed)
-@known_predicate('C02-unary-minus-before-power')
-def _kp_neg_pow(case):
-    """A prefix minus is emitted bare: -2^2, (-2)^2, -A1^2 compile to -(2**2)."""
-    return case.get('clause') == 'neg-pow-left'
-
-
-@known_predicate('C02-text-literal-backslash')
-def _kp_text_backslash(case):
-    """A backslash in a text literal is copied into the Python literal, where it starts an escape."""
-    return case.get('clause') == 'text-backslash'
-
-
-@known_predicate('C02-text-literal-newline')
-def _kp_text_newline(case):
-    """A line feed / carriage return in a text literal is copied raw into the Python literal."""
-    return case.get('clause') == 'text-newline'
-
-
 @known_predicate('C02-number-leading-zeros')
 def _kp_leading_zero(case):
     """A number with superfluous leading zeros (007) is not a Python literal."""
@@ -189,7 +171,24 @@ def features(e, out=None):
     return out
 
 
-CLAUSE_ORDER = ['text-newline', 'text-backslash', 'number-leading-zero', 'logical-lowercase', 'neg-pow-left']
+# causes that are known findings; everything else (incl. the fixed ones: a negated operand of ^, backslash /
+# line break in a text literal) is judged under the clause 'grouping'
+def arith_tree(e):
+    """the fragment of theorem C02_emit, for trees of the generators"""
+    k = e[0]
+    if k in ('neg', 'pct'):
+        return arith_tree(e[1])
+    if k == 'bin':
+        return arith_tree(e[2]) and arith_tree(e[3])
+    if k == 'call':
+        return e[1].lower() not in ('row', 'column', 'offset', 'indirect', 'subtotal', 'map') and \
+            all(a is None or arith_tree(a) for a in e[2])
+    if k == 'ref':
+        return ':' not in e[1] or e[1].count(':') == 1
+    return k != 'array'
+
+
+CLAUSE_ORDER = ['number-leading-zero', 'logical-lowercase']
 
 
 def clause_of(e):
@@ -483,10 +482,12 @@ def run(ctx):
             if m_code != code:
                 ctx.divergence(case, code, m_code, 'Model/Emit.v code = ExcelFormula.python_code')
             # the model's reading of the emitted text against CPython
-            if wf and 'text-newline' not in features(e) and 'number-leading-zero' not in features(e):
+            if not wf and arith_tree(e):
+                ctx.divergence(case, code, m_code, 'model: PyWF (emit e) for the arithmetic fragment (theorem C02_emit)')
+            if wf and 'number-leading-zero' not in features(e):
                 ctx.count(('pygrammar', m_code), kind='pygrammar:emitted')
                 d1, d2 = py_dump(m_code), py_dump(m_x)
-                if d1 != d2 and 'text-backslash' not in features(e):
+                if d1 != d2:
                     ctx.divergence(case, d1, d2, 'Model/Emit.v PyWF/pyabs(translate) = CPython ast.parse of the code')
         else:
             ctx.histogram['emit-unmodelled'] = ctx.histogram.get('emit-unmodelled', 0) + 1
@@ -531,9 +532,7 @@ def run(ctx):
             except (SyntaxError, ValueError) as exc:
                 py = ('raise', type(exc).__name__)
             m = ('ok', txt(a[2][1])) if a[2][0] == 0 else ('none',)
-            if m[0] == 'ok' and m != py:
-                ctx.divergence(case, py, m, 'Model/Emit.v py_string_literal = CPython literal decoding')
-            if m[0] == 'none' and py[0] == 'ok' and not ('\\' in s):
+            if m != py:
                 ctx.divergence(case, py, m, 'Model/Emit.v py_string_literal = CPython literal decoding')
         # the property: a text literal yields exactly its characters
         v = impl.evaluate(text, {})
